@@ -284,11 +284,11 @@ Section NMProofs.
   Proof. induction l as [|a l IH]; simpl; auto. destruct (l ++ [x]) eqn:E; [destruct l; discriminate|exact IH]. Qed.
 
   Theorem nm_run_ok : forall ops sc,
-    Forall (clean_op N _ nm_ok_in true) ops -> P_nm (fst sc) (snd sc) ->
+    Forall (clean_op N _ nm_ok_in true false) ops -> P_nm (fst sc) (snd sc) ->
     P_nm (fst (run N inf _ _ (nm_algo N inf) sc ops)) (snd (run N inf _ _ (nm_algo N inf) sc ops)).
   Proof.
-    apply (run_joint N inf _ _ (nm_algo N inf) P_nm nm_ok_in true).
-    - intros s s' c Ec Es Eu (Hc & Hg & Hh). split; [|split].
+    apply (run_joint N inf _ _ (nm_algo N inf) P_nm nm_ok_in true false).
+    - intros s s' c Ec Es Eu _ (Hc & Hg & Hh). split; [|split].
       + rewrite (Eu eq_refl). exact Hc.
       + eapply good0_frame; eauto.
       + rewrite Es. exact Hh.
@@ -332,7 +332,7 @@ Section NMProofs.
   (* end to end: from any state satisfying the invariant (e.g. a freshly built solver, nm_init_ok), through any clean
      operation sequence *)
   Theorem nm_reported_best : forall ops sc,
-    Forall (clean_op N _ nm_ok_in true) ops -> P_nm (fst sc) (snd sc) ->
+    Forall (clean_op N _ nm_ok_in true false) ops -> P_nm (fst sc) (snd sc) ->
     let r := run N inf _ _ (nm_algo N inf) sc ops in
     stepmon N (fst r) <> [] -> sim N (snd r) <> [] ->
     honest N (fst r) (nm_best N inf (snd r)) /\ cons0 (fst (nm_best N inf (snd r))) = fst (nm_best N inf (snd r)) /\
